@@ -75,15 +75,22 @@ class OdeStub(object):
                 gf = Fraction(term_of(g).args[0]) if isinstance(g, SymReal) else T.float_to_fraction(float(g))
                 r, u = closed_form_const(p0, r0, u0, g, gf, sign, c, inst)
         else:
-            r = ex.fresh('r_node')
-            u = ex.fresh('u_node')
-            rp, up = self.y
-            ex.assume(T.gt(r.t, T.ZERO))
-            ex.assume(T.lt(r.t, lift(rp)))                           # dr/dp = 1/a^2 > 0 and p decreases
-            if sign > 0:
-                ex.assume(T.lt(u.t, lift(up)))
-            else:
-                ex.assume(T.gt(u.t, lift(up)))
+            # no closed form: ARBITRARY node values, monotone as every solution of the real RHS is (dr/dp = 1/c^2 > 0,
+            # du/dp = sign/(rho c)); the same integration asked again on this path returns the same values
+            cache = ex.notes.setdefault('ode_cache', {})
+            key = (lift(p0), lift(r0), lift(u0), sign, lift(tnew))
+            if key not in cache:
+                r = ex.fresh('r_node')
+                u = ex.fresh('u_node')
+                rp, up = self.y
+                ex.assume(T.gt(r.t, T.ZERO))
+                ex.assume(T.lt(r.t, lift(rp)))
+                if sign > 0:
+                    ex.assume(T.lt(u.t, lift(up)))
+                else:
+                    ex.assume(T.gt(u.t, lift(up)))
+                cache[key] = (r, u)
+            r, u = cache[key]
         self.t = tnew
         self.y = np.array([r, u], dtype=object)
         return self.y
